@@ -1,6 +1,6 @@
 (** C16  Text export agrees with the API; re-importing it reproduces the cooler.
     Only statements; proofs are in Proofs/DumpProofs.v.  Model: Model/Dump.v. *)
-From Coq Require Import String QArith Permutation Sorted.
+From Coq Require Import String Ascii QArith Permutation Sorted.
 From Coq Require Import List.
 From Cooler Require Import Model.Dump Proofs.PixelsProofs Proofs.DumpProofs Proofs.DumpSpansProofs.
 Open Scope Z_scope.
@@ -241,6 +241,35 @@ Theorem C16_load_pixels_roundtrip : forall ob t chunk px,
   SSorted px -> tril_harmless t px -> load_pixels ob t chunk (map (shift_ids ob) px) = Some px.
 Proof. exact load_pixels_roundtrip. Qed.
 Print Assumptions C16_load_pixels_roundtrip.
+
+(** `cooler cload pairs -c1 a -p1 b -c2 c -p2 d` for ANY pairwise distinct one-based field numbers (every permutation,
+    with gaps): the schema is accepted, `count` is the output column, every positional field gets its own column's text *)
+Theorem C16_cload_positional_any_layout : forall c1 p1 c2 p2 rec,
+  1 <= c1 <= Z.of_nat (length rec) -> 1 <= p1 <= Z.of_nat (length rec) ->
+  1 <= c2 <= Z.of_nat (length rec) -> 1 <= p2 <= Z.of_nat (length rec) ->
+  NoDup [c1; p1; c2; p2] ->
+  exists s r, cload_schema c1 p1 c2 p2 [] = Some s /\ s_out s = ["count"%string] /\
+    read_fields (s_in s) (s_num s) rec = Some r /\
+    assoc "chrom1" r = Some (nth (Z.to_nat (c1 - 1)) rec EmptyString) /\
+    assoc "pos1" r = Some (nth (Z.to_nat (p1 - 1)) rec EmptyString) /\
+    assoc "chrom2" r = Some (nth (Z.to_nat (c2 - 1)) rec EmptyString) /\
+    assoc "pos2" r = Some (nth (Z.to_nat (p2 - 1)) rec EmptyString).
+Proof. exact cload_positional_any_layout. Qed.
+Print Assumptions C16_cload_positional_any_layout.
+
+(** parse_field_param on the documented form NAME=NUMBER (name free of ':' and '='): zero-based column = NUMBER - 1 for
+    every NUMBER >= 1; NUMBER = 0 is refused ("Field numbers start at 1") *)
+Theorem C16_parse_field_param_name_number : forall name k agg,
+  has_char ":" name = false -> has_char "=" name = false -> 1 <= k ->
+  parse_field_param (append name (String "=" (print_Z k))) true agg = FP name (Some (k - 1)) None None.
+Proof. exact parse_field_param_name_number. Qed.
+Print Assumptions C16_parse_field_param_name_number.
+
+Theorem C16_parse_field_param_zero_refused : forall name agg,
+  has_char ":" name = false -> has_char "=" name = false ->
+  parse_field_param (append name (String "=" (print_Z 0))) true agg = FPBad.
+Proof. exact parse_field_param_zero_refused. Qed.
+Print Assumptions C16_parse_field_param_zero_refused.
 
 (* ---------------------------------------------------------------- non-vacuity *)
 Definition ex_cool : dcooler :=
